@@ -155,9 +155,11 @@ harnesses! {
     e2n_min_fee_for_size [native 0] => e2n::min_fee_for_size;
     e2n_ex_units_cost [native 0] => e2n::ex_units_cost;
     e2n_ref_script_fee [native 0] => e2n::ref_script_fee;
+    e2n_script_fee [native 0] => e2n::script_fee;
     e2n_c20_tables [native 0] => e2n::c20_tables;
     e2n_c05_gate [native 0] => e2n::c05_gate;
     e2n_c07_min_ada [native 0] => e2n::c07_min_ada;
+    e2n_c19_collateral [native 0] => e2n::c19_collateral;
     e2n_builder_battery [native 0] => battery::builder_battery;
     c11_enc_base [stub 4] => c11::enc_base;
     c11_enc_enterprise [stub 4] => c11::enc_enterprise;
